@@ -103,6 +103,37 @@ func findReader(c *Ctx, rule string) *readerInfo {
 			c.Lost(rule, "the module reader type")
 			return nil
 		}
+		// a loader in front of the real constructor (read the source, then build the reader): the function that allocates the
+		// reader is the constructor
+		for depth := 0; depth < 3; depth++ {
+			allocs := false
+			for _, b := range ri.ctorFn.Blocks {
+				for _, in := range b.Instrs {
+					if a, ok := in.(*ssa.Alloc); ok {
+						if pt, ok := a.Type().(*types.Pointer); ok && types.Identical(pt.Elem(), types.Type(ri.typ)) {
+							allocs = true
+						}
+					}
+				}
+			}
+			if allocs {
+				break
+			}
+			var inner *ssa.Function
+			allCalls(ri.ctorFn, func(ci ssa.CallInstruction) {
+				g := ci.Common().StaticCallee()
+				if g == nil || g.Pkg != ri.ctorFn.Pkg || g == ri.ctorFn || g.Signature.Results().Len() < 1 {
+					return
+				}
+				if types.Identical(g.Signature.Results().At(0).Type(), ri.ctorFn.Signature.Results().At(0).Type()) {
+					inner = g
+				}
+			})
+			if inner == nil {
+				break
+			}
+			ri.ctorFn = inner
+		}
 	default:
 		c.Lost(rule, "a known kind of reader constructor")
 		return nil
